@@ -110,8 +110,12 @@ def interior_consistency(g, phi, spy, bad, maxerr, cov, label):
     e = float(np.max(e_rows)) if e_rows.size else 0.0
     maxerr['interior-vs-reported'] = max(maxerr.get('interior-vs-reported', 0.0), e)
     cov['interior_consistency'] = cov.get('interior_consistency', 0) + 1
-    if not (e <= TOL):
-        cells = [np.unravel_index(int(i), g.dims) for i in np.flatnonzero(e_rows > TOL)]
+    # the reported ghosts are recomputed from the boundary relation, the solved ones carry the solver's (norm-wise) backward error
+    # divided by the ghost coefficient (1e-3-scaled Dirichlet rows amplify it 2000x): rounding level here is up to ~1e-9, defects
+    # give >= 1e-3, so this clause uses 1e-7
+    CTOL = 1e-7
+    if not (e <= CTOL):
+        cells = [np.unravel_index(int(i), g.dims) for i in np.flatnonzero(e_rows > CTOL)]
         unequal = [k for k in range(g.nd) if axis_periodic(phi.BCs, k) and abs(g.w[k][0] - g.w[k][-1]) > 1e-12 * max(g.w[k][0], g.w[k][-1])]
         if unequal and all(any(c[k] in (0, g.N[k] - 1) for k in unequal) for c in cells):
             bad.append((KEY_PER, '%s: interior equations next to a periodic boundary with unequal end cells are not satisfied by the reported (wrapped) boundary values, err %.3g' % (label, e)))
